@@ -511,7 +511,11 @@ def compare_model(ctx, case, obs, pix, answers):
     for resp, real_I in zip(st_answers, obs.get('stokes_req', [])):
         ks = _kv(resp)
         ctx.traces_validated += 1
-        ctx.count('stokesI-compared' + ('' if ks['phys'] == '1' else '(unphysical Stokes vector)'))
+        sv = [Fraction(v) for v in case['stokes']]
+        phys = sv[0] >= 0 and sv[1] ** 2 + sv[2] ** 2 + sv[3] ** 2 <= sv[0] ** 2
+        if (ks['phys'] == '1') != phys:
+            ctx.disagree('C04 Stokes vector physical', {'case': case, 'model': ks['phys'], 'harness': phys})
+        ctx.count('stokesI-compared' + ('' if phys else '(unphysical Stokes vector)'))
         mi = float(parse_rat(ks['I']))
         if not abs(mi - real_I) <= TOL * max(1.0, abs(mi)):
             ctx.disagree('C04 Stokes I', {'case': case, 'impl': real_I, 'model': mi})
@@ -897,6 +901,7 @@ def compare_mcase(ctx, mc, obs, answers):
         k = _kv(resp)
         got = np.array([float(a) + 1j * float(b) for a, b in zip(parse_rat_list(k['re']), parse_rat_list(k['im']))])
         ctx.traces_validated += 1
+        ctx.count('matrix-tf mdot-compared')
         if got.shape != real.shape or not np.abs(got - real).max() <= TOL * max(1.0, float(np.abs(real).max())):
             ctx.disagree('C04 matrix transfer function product', {'mcase': mc, 'impl': [str(c) for c in real], 'model': [str(c) for c in got]})
     nx, ny = mc['dims']
